@@ -15,24 +15,25 @@ def pin_except(keep):
 
 def harnesses():
     out = []
-    groups = ["div_rem+wrapping+checked", "Div operators", "Rem operators", "div_ceil", "next_multiple_of"]
+    groups = ["div_rem+wrapping+checked", "Div operators", "Rem operators", "div_ceil", "checked_next_multiple_of",
+              "next_multiple_of"]
     gfns = [["div_rem", "wrapping_div", "wrapping_rem", "checked_div", "checked_rem"], ["Div", "DivAssign"],
-            ["Rem", "RemAssign"], ["div_ceil"], ["checked_next_multiple_of", "next_multiple_of"]]
+            ["Rem", "RemAssign"], ["div_ceil"], ["checked_next_multiple_of"], ["next_multiple_of"]]
     # FULL 63/64-bit operands do not finish (each native `/` becomes its own divider circuit with a free
     # quotient: > 300 s per group, measured): single-limb claims are at narrow widths only
-    for b in [1, 7, 8, 16]:
-        for w in range(5):
-            tier = "quick" if (b in (1, 8) and w < 4) else "thorough"
+    for b in [1, 2, 7, 8, 16]:
+        for w in range(6):
+            tier = "quick" if ((b in (1, 8) and w < 4) or b == 2) else "thorough"
             out.append(H("c03_single_%d_g%d" % (b, w), "C03", "c03::single::<%d,%d>" % (b, w), unwind=12, tier=tier,
                          timeout=1200 if tier == "quick" else 3600, inst="Uint<%d,1> (%s)" % (b, groups[w]), stubs=PIN, role="c03::single.g%d" % w,
                          domain="FULL (n, d), d != 0; slice kernels pinned unreachable; oracle native u64 / % "
                                 "(plus q*d+r = n, r < d for BITS <= 16)", free_bits=2 * b,
                          fns=gfns[w] + ["algorithms::div"]))
-    for b in [1, 7, 8, 16]:
+    for b in [1, 2, 7, 8, 16]:
         if b == 1:
             continue  # at one bit d = 1 divides everything: no overflowing multiple exists
         out.append(H("c03_next_multiple_overflow_%d" % b, "C03", "c03::next_multiple_overflow_panics::<%d>" % b,
-                     unwind=12, tier="thorough", timeout=3600, inst="Uint<%d,1>" % b, stubs=PIN, kind="never_returns",
+                     unwind=12, tier="quick" if b == 2 else "thorough", timeout=3600, inst="Uint<%d,1>" % b, stubs=PIN, kind="never_returns",
                      domain="every (n, d) whose next multiple does not fit", free_bits=2 * b, fns=["next_multiple_of"]))
     for b in [0, 1, 64, 65, 128, 250]:
         l = nlimbs(b)
